@@ -375,6 +375,8 @@ def _run_ob(obl: Ob, funcs: set, no_solver=False) -> dict:
         res.setdefault("message", "")
         r.update(res)
         r["describe"] = _jsonable(obl.describe())
+        if getattr(obl, "stats", None):
+            r["stats"] = _jsonable(obl.stats)
         return r
     r.update(run_crosshair(obl))
     if getattr(obl, "stats", None):
